@@ -868,33 +868,36 @@ func (k *vCtl) reqGroupTrigger() {
 	before, haveBefore := k.groupState()
 	vClientReset(true)
 	defer func() {
-		msgs := vClientSnapshot()
-		vClientReset(false)
 		if !haveBefore || k.dead {
+			vClientReset(false)
 			return
 		}
 		after, ok := k.groupState()
 		if !ok {
+			vClientReset(false)
 			return
 		}
-		// the drainer may lag behind the core loop by a moment
-		for i := 0; i < 200 && len(msgs) == 0 && vGroupKey(before) != vGroupKey(after); i++ {
-			time.Sleep(time.Millisecond)
-			msgs = vClientSnapshot()
-		}
-		var last *GroupTriggerState
-		for _, m := range vClientSnapshot() {
-			msgs = append(msgs, m)
-		}
-		for _, m := range msgs {
-			if m.tag == "GROUPTRIGGER" {
-				if st, ok := m.state.(*GroupTriggerState); ok {
-					last = st
-				} else if st, ok := m.state.(GroupTriggerState); ok {
-					last = &st
+		// the last GROUPTRIGGER update since the request was issued (the drainer may lag behind the core loop by a moment)
+		findGT := func() *GroupTriggerState {
+			var last *GroupTriggerState
+			for _, m := range vClientSnapshot() {
+				if m.tag == "GROUPTRIGGER" {
+					if st, ok := m.state.(*GroupTriggerState); ok {
+						last = st
+					} else if st, ok := m.state.(GroupTriggerState); ok {
+						st := st
+						last = &st
+					}
 				}
 			}
+			return last
 		}
+		last := findGT()
+		for i := 0; i < 3000 && last == nil && vGroupKey(before) != vGroupKey(after); i++ {
+			time.Sleep(time.Millisecond)
+			last = findGT()
+		}
+		vClientReset(false)
 		k.c.Cov("grouptrigger_report_checks", 1)
 		switch {
 		case last != nil && vGroupKey(last) != vGroupKey(after):
